@@ -358,3 +358,52 @@ theorem objGet_found {id : Nat} {s : St} {rv : RVal} (h : Lru.find? s.obj.data i
     rfl
 
 end MlModel.Remote
+
+namespace MlModel.Remote
+open MlModel MlModel.Lazy
+set_option linter.unusedSimpArgs false
+set_option linter.unusedVariables false
+
+theorem bind_ok_inv {α β : Type} {m : M α} {f : α → M β} {s s2 : St} {b : β}
+    (h : (m >>= f) s = (.ok b, s2)) : ∃ a s1, m s = (.ok a, s1) ∧ f a s1 = (.ok b, s2) := by
+  rw [bind_def] at h
+  cases hm : m s with
+  | mk r s1 =>
+    rw [hm] at h
+    cases r with
+    | error e => simp at h
+    | ok a => exact ⟨a, s1, rfl, h⟩
+
+/-- An uncached call marked `lazy_result_` that succeeds returns a handle, and its id is fresh: not
+below the id counter before the call, below the counter after it. -/
+theorem eval_lazy_call_handle (f : Expr) (as : List Expr) (ks : List (String × Expr)) (s s' : St) (rv : RVal)
+    (hg : Good s) (h : eval (.call f as ks false true) s = (.ok rv, s')) :
+    ∃ id, rv.1 = .handle id ∧ s.nextId ≤ id ∧ id < s'.nextId := by
+  rw [eval_call] at h
+  simp only [Bool.false_eq_true, if_false, callBody, if_true] at h
+  split at h
+  · simp only [newHandle, Prod.mk.injEq, Except.ok.injEq] at h
+    obtain ⟨h1, h2⟩ := h
+    subst h1; subst h2
+    exact ⟨s.nextId, rfl, Nat.le_refl _, Nat.lt_succ_self _⟩
+  · obtain ⟨fv, s1, h1, h⟩ := bind_ok_inv h
+    have p1 := pres_eval f s hg
+    rw [h1] at p1
+    split at h
+    · simp at h
+    · obtain ⟨avs, s2, h2, h⟩ := bind_ok_inv h
+      have p2 := pres_evalArgs as s1 p1.1
+      rw [h2] at p2
+      obtain ⟨kvs, s3, h3, h⟩ := bind_ok_inv h
+      have p3 := pres_evalKw ks s2 p2.1
+      rw [h3] at p3
+      obtain ⟨r, s4, h4, h⟩ := bind_ok_inv h
+      have p4 := pres_applyMake fv avs kvs s3 p3.1
+      rw [h4] at p4
+      simp only [newHandle, Prod.mk.injEq, Except.ok.injEq] at h
+      obtain ⟨h5, h6⟩ := h
+      subst h5; subst h6
+      refine ⟨s4.nextId, rfl, ?_, Nat.lt_succ_self _⟩
+      exact Nat.le_trans p1.2.next (Nat.le_trans p2.2.next (Nat.le_trans p3.2.next p4.2.next))
+
+end MlModel.Remote
